@@ -20,7 +20,7 @@ use std::fs::File;
 use std::io::{Cursor, Read as StdRead};
 use std::path::{Path, PathBuf};
 
-use super::constants::{CHUNK_SIZE, ENTRY_SIZE, MAX_ENTRIES_PER_CHUNK};
+use super::constants::{CHUNK_SIZE, MAX_ENTRIES_PER_CHUNK};
 
 /// Archive index constants
 /// Minimum footer size (20 bytes + hash_bytes)
@@ -1210,28 +1210,33 @@ impl ChunkedArchiveIndex {
     #[allow(clippy::expect_used)] // Chunk is set to Some on line above
     fn load_chunk(&mut self, chunk_idx: usize) -> ArchiveResult<&Vec<IndexEntry>> {
         if self.chunks[chunk_idx].is_none() {
-            let mut file = File::open(&self.file_path)?;
-            file.seek(SeekFrom::Start((chunk_idx * CHUNK_SIZE) as u64))?;
+            // Record layout comes from the footer, exactly as in `ArchiveIndex::parse`
+            let block_size = (self.footer.page_size_kb as usize) * 1024;
+            let record_size = self.footer.ekey_length as usize
+                + self.footer.size_bytes as usize
+                + self.footer.offset_bytes as usize;
 
-            let mut chunk_data = vec![0u8; CHUNK_SIZE];
+            let mut file = File::open(&self.file_path)?;
+            file.seek(SeekFrom::Start((chunk_idx * block_size) as u64))?;
+
+            let mut chunk_data = vec![0u8; block_size];
             StdRead::read_exact(&mut file, &mut chunk_data)?;
 
             let mut entries = Vec::new();
-            let mut cursor = Cursor::new(&chunk_data);
-
-            while cursor.position() + ENTRY_SIZE as u64 <= CHUNK_SIZE as u64 {
-                let remaining = chunk_data.len() as u64 - cursor.position();
-                if remaining < ENTRY_SIZE as u64 {
-                    break;
-                }
-                let pos = cursor.position() as usize;
-                let entry_bytes = &chunk_data[pos..pos + ENTRY_SIZE];
-                cursor.set_position(cursor.position() + ENTRY_SIZE as u64);
-                let entry = IndexEntry::parse(entry_bytes, 16, 4, 4)?; // Assume 16-byte keys for compatibility
-                if entry.is_zero() {
+            let mut pos = 0;
+            while pos + record_size <= block_size {
+                let entry = IndexEntry::parse(
+                    &chunk_data[pos..pos + record_size],
+                    self.footer.ekey_length,
+                    self.footer.size_bytes,
+                    self.footer.offset_bytes,
+                )?;
+                // Zero record = padding, except as the very first record of the index
+                if entry.is_zero() && !(chunk_idx == 0 && pos == 0) {
                     break;
                 }
                 entries.push(entry);
+                pos += record_size;
             }
 
             self.chunks[chunk_idx] = Some(entries);
@@ -1337,7 +1342,7 @@ impl crate::CascFormat for ArchiveIndex {
 )]
 mod tests {
     use super::*;
-    use crate::archive::constants::FOOTER_SIZE;
+    use crate::archive::constants::{ENTRY_SIZE, FOOTER_SIZE};
     use std::io::Cursor;
     use tempfile::tempdir;
 
